@@ -167,6 +167,9 @@ def build_pairs(rng, quick=True):
 BOUNDARY_IDS = [0, 1, 31, 32, 63, 64, 65, 127, 128, 255, 256, 1023, 1024, 32767, 32768, 65535]
 
 
+MORE_IDS = sorted(set([0, 1, 2, 65534, 65535] + [x for k in range(5, 16) for x in ((1 << k) - 1, 1 << k, (1 << k) + 1)]))
+
+
 def required_universe(ids=BOUNDARY_IDS):
     """writer with an optional pointer field at every boundary id; one reader per id that
     declares exactly that id required"""
